@@ -122,7 +122,8 @@ class Check(BaseCheck):
             cls.append("loops-precondition:%s" % pre)
             stats.case(core.mesh_key(np.zeros(0), t, nv), cls=cls, nontrivial=len(t) >= 3,
                        sample=dict(name=name, nv=nv, t=np.asarray(t)[:6]))
-            case = dict(v=v, t=t, name=name)
+            case = dict(v=v, t=t, name=name, pres=next((x[5:] for x in tags if x.startswith("pres:")), None), vdtype="int64" if "int-coords" in tags else None)
+            gen.use(case)
             # scalar queries
             iq = core.call(impl_queries, v, t)
             r = wire.Reply(drv.ask("topo %d %s" % (nv, wire.elems(t))))
